@@ -61,6 +61,9 @@
 (*  quote-prefix-before-pause    after a pause directly behind a quote     *)
 (*        prefix % ^ ~ the result of the text differs (the prefix is       *)
 (*        applied to the end-of-input marker)                              *)
+(*  sign-inf-after-pause         after a pause directly behind a lone - or *)
+(*        + inside an open construct, a following word (Inf) is not joined *)
+(*        to the sign                                                      *)
 (***************************************************************************)
 EXTENDS ParseSession, Json, IOUtils, TLC
 
@@ -84,16 +87,17 @@ On(id) == \E i \in 1..Len(DevStr) :
              i + Len(id) - 1 <= Len(DevStr) /\ SubSeq(DevStr, i, i + Len(id) - 1) = id
 DevNames == <<"last-token-lost", "open-string-at-top-is-done", "reset-keeps-lookback",
               "reset-keeps-queued-input", "star-star-slash-not-closing", "dangling-minus-asks-more",
-              "dotted-pair-after-pause", "quote-prefix-before-pause">>
-NDev == 8
+              "dotted-pair-after-pause", "quote-prefix-before-pause", "sign-inf-after-pause">>
+NDev == 9
 (* the enabled deviations, computed once per initial state and carried in the state *)
 DevFlags == [k \in 1..NDev |-> On(DevNames[k])]
 
 (* Max(S) and Min(S) of a set of integers come from FiniteSetsExt (via SequencesExt) *)
 
-(* verdict codes: 0 ok, 1..8 explained only by deviation DevNames[k], 9 bad, -1 not judged *)
+(* verdict codes: 0 ok, 1..NDev explained only by deviation DevNames[k], Bad, -1 not judged *)
+Bad == 99
 Worst(a, b) ==
-    CASE a = 9 \/ b = 9 -> 9
+    CASE a = Bad \/ b = Bad -> Bad
       [] a \in 1..NDev /\ b \in 1..NDev -> IF a < b THEN a ELSE b
       [] a \in 1..NDev -> a
       [] b \in 1..NDev -> b
@@ -113,7 +117,7 @@ Judge(a, r, DOn) ==
       [] DOn[1] /\ D1(a, r) -> 1
       [] DOn[2] /\ D2(a, r) -> 2
       [] DOn[6] /\ D6(a, r) -> 6
-      [] OTHER -> 9
+      [] OTHER -> Bad
 
 (* the automaton states of all referenced substrings: one walk per start position *)
 Walk(cls, s, ps) ==
@@ -132,9 +136,9 @@ RefVerdict(C, e, DOn, ST) ==
     IF r[1] = "panic" THEN -1
     ELSE LET a == ST[e[1]][e[2]]
              v == Judge(a, r, DOn) IN
-         IF v # 9 \/ ~DOn[5] THEN v
+         IF v # Bad \/ ~DOn[5] THEN v
          ELSE LET b == RunIx(A0, C.cls, e[1] + 1, e[2], TRUE) IN
-              IF b # a /\ Judge(b, r, DOn) # 9 THEN 5 ELSE 9
+              IF b # a /\ Judge(b, r, DOn) # Bad THEN 5 ELSE Bad
 
 (* ---------------- L1: the pieces of a run against the references ---------------- *)
 CanStart == {"none", "sp", "nl", "(", "[", "{", ";", ":", "-", "*", "/", ",", "op", "+"}
@@ -145,7 +149,7 @@ RefIdx(C, k, s, p) ==
 
 Lookback(C, s, p, prevLast, o, r, DOn) ==
     /\ prevLast \notin CanStart
-    /\ p - s >= 2 /\ C.cls[s + 1] = "-" /\ C.cls[s + 2] = "1"
+    /\ p - s >= 2 /\ C.cls[s + 1] = "-" /\ C.cls[s + 2] \in {"1", "."}
     /\ \/ /\ o[1] = r[1] /\ Len(o[3]) = Len(r[3]) + 1 /\ C.strs[o[3][1]] = "-"
           /\ SubSeq(o[3], 3, Len(o[3])) = SubSeq(r[3], 2, Len(r[3]))
        \/ (* nothing after the - has been delivered as a token yet (last-token-lost):  *)
@@ -171,6 +175,11 @@ DottedPause(C, ST, s, e) ==
 PrefixPause(ST, s, segcuts) ==
     \E e \in segcuts : ST[s][e].lt = "prefix"
 
+(* an earlier pause of this segment came directly after a lone sign, a word follows *)
+SignPause(C, ST, s, segcuts) ==
+    \E e \in segcuts : ST[s][e].lt = "minus" /\ ST[s][e].m = "code"
+                        /\ FirstNonBlank(C.cls, e + 1, Len(C.cls)) = "a"
+
 RECURSIVE PieceV(_, _, _, _, _, _, _, _, _)
 PieceV(C, run, j, s, prevLast, first, DOn, segcuts, ST) ==
     IF j > Len(run[5]) THEN 0
@@ -178,7 +187,7 @@ PieceV(C, run, j, s, prevLast, first, DOn, segcuts, ST) ==
              p == IF j <= Len(run[4]) THEN run[4][j] ELSE n
              oi == run[5][j]
              ri == RefIdx(C, run[7][j], s, p) IN
-         IF ri = 0 THEN 9
+         IF ri = 0 THEN Bad
          ELSE LET o == C.tab[oi]
                   r == C.tab[ri] IN
               IF o[1] = "panic" \/ r[1] = "panic" THEN -1
@@ -188,8 +197,9 @@ PieceV(C, run, j, s, prevLast, first, DOn, segcuts, ST) ==
                               [] DOn[7] /\ segcuts # {} /\ o[1] = "err" /\ r[1] # "err"
                                  /\ DottedPause(C, ST, s, Max(segcuts)) -> 7
                               [] DOn[8] /\ PrefixPause(ST, s, segcuts) -> 8
-                              [] OTHER -> 9 IN
-                   IF v = 9 THEN 9
+                              [] DOn[9] /\ SignPause(C, ST, s, segcuts) -> 9
+                              [] OTHER -> Bad IN
+                   IF v = Bad THEN Bad
                    ELSE IF o[1] = "more"
                         THEN Worst(v, PieceV(C, run, j + 1, s, prevLast, first, DOn, segcuts \cup {p}, ST))
                         ELSE Worst(v, PieceV(C, run, j + 1, p,
@@ -210,8 +220,8 @@ JudgeCase(C, DOn) ==
     LET ST == StateTable(C)
         RC == [k \in 1..Len(C.refs) |-> RefVerdict(C, C.refs[k], DOn, ST)]
         UC == [k \in 1..Len(C.runs) |-> RunVerdict(C, C.runs[k], DOn, ST)]
-        br == {k \in 1..Len(C.refs) : RC[k] = 9}
-        bu == {k \in 1..Len(C.runs) : UC[k] = 9}
+        br == {k \in 1..Len(C.refs) : RC[k] = Bad}
+        bu == {k \in 1..Len(C.runs) : UC[k] = Bad}
         kn == {RC[k] : k \in 1..Len(C.refs)} \cup {UC[k] : k \in 1..Len(C.runs)}
         known == kn \cap (1..NDev)
         disc == Cardinality({k \in 1..Len(C.refs) : RC[k] = -1})
